@@ -263,3 +263,16 @@ example (theta : ℝ) : DetSpec (2 * theta) 0 (Real.pi / 2) theta := by
   simp [DetSpec, Real.sin_pi_div_two, Real.cos_pi_div_two]
 end
 end C01
+
+namespace C01
+open Scalar PyOps Solver
+/-- the recorded finding `C01-bound-clip-at-turning-point`, on the model: inside the band `(1, 1 + 1e-7]` the guard in front of every
+`asin` / `acos` does not refuse, it answers with the turning point — so `boundAcos x` is `0` for an `x` no angle has as its cosine, and a
+request that misses a solution by that little is answered (inexactly, below the 1e-3 of the read-back) instead of refused -/
+theorem bound_clips_in_band (x : ℝ) (h1 : 1 < x) (h2 : x ≤ 1 + 1e-7) : PyOps.bound x = .ok 1 := by
+  have hx : |x| = x := abs_of_pos (by linarith)
+  simp only [PyOps.bound, rs_lt, rs_abs, rs_one, Scalar.SMALL, Scalar.ofSci, hx]
+  have : ¬ ((1 : ℝ) + 1 / 10 ^ 7 < x) := by norm_num at h2 ⊢; linarith
+  norm_num at this ⊢
+  simp [this, h1]
+end C01
